@@ -103,7 +103,9 @@ func (r *recorder) add(e cbEvent) {
 		ph := *mp.BlockHeader.BlockHash()
 		if bn, ok := r.w.Tree.byHash[ph]; ok {
 			h := r.w.Tree.blocks[bn].height
+			r.w.Store.Paused = true
 			got, err := r.w.Node.Hash(core.Ctx(), h)
+			r.w.Store.Paused = false
 			switch {
 			case err != nil || got == nil:
 				e.Held = fmt.Sprintf("nothing at height %d", h)
@@ -765,6 +767,9 @@ func (w *World) startHeightOnBest() int {
 
 // Converged reports whether the node's chain equals the peer's best chain from the start block up.
 func (w *World) Converged() (bool, string) {
+	was := w.Store.Paused
+	w.Store.Paused = true // a probe of the harness, not an operation of the node
+	defer func() { w.Store.Paused = was }()
 	tip, hashAt := w.nodeChain()
 	want := len(w.Best) - 1
 	if tip != want {
